@@ -179,7 +179,7 @@ def pretty(n, depth=0, maxdepth=40):
             s += " else {%s}" % P(n["else"])
         return s
     if k == "Match":
-        return "match %s {%s}" % (P(n["scrut"]), "; ".join("%s => %s" % (pat(a["pat"]), P(a["body"])) for a in n["arms"]))
+        return "match %s {%s}" % (P(n["scrut"]), "; ".join("%s%s => %s" % (pat(a["pat"]), (" if " + P(a["guard"])) if a.get("guard") else "", P(a["body"])) for a in n["arms"]))
     if k == "Block":
         parts = [P(s) for s in n.get("stmts", [])]
         if n.get("tail"):
